@@ -506,6 +506,10 @@ def main():
     ambiguous = [v for v in violations if is_amb(v)]
     violations = [v for v in violations if not is_amb(v)]
     amb_wit = scen_wit if (scen_wit and scen_wit.get('status') == 'found') else None
+    if ambiguous and amb_wit is not None and all(v.get('kind') == 'scenario' for v in violations):
+        # the bounded leg exhibited a concrete failing input for this property: the failed obligations are reported with it
+        violations = ambiguous + violations
+        ambiguous = []
     if ambiguous and not violations:
         amb_wit = witness(prop, ambiguous[0]['clause'], tier) if prop in WITNESS_FALLBACK else None
         if amb_wit and amb_wit.get('status') == 'found':
